@@ -113,7 +113,7 @@ func init() {
 							case e := <-w.Wk.Errs():
 								want := fmt.Sprintf("err%d", failTag)
 								if as[failTag] == BPanic {
-									want = fmt.Sprintf("boom%d", failTag)
+									want = panicText(failTag)
 								}
 								if e == nil || !strings.Contains(e.Error(), want) {
 									h.viol("C07", "C07.errs", "the error channel carries "+errStr(e)+" instead of the failed job's error")
